@@ -240,8 +240,10 @@ class Aspire:
         logger.info(f"Training with {len(samples.x)} samples")
         history = self.flow.fit(samples.x, **kwargs)
         defaults = getattr(self, "_checkpoint_defaults", None)
+        # The flow changed: a copy saved earlier (by this or by an enclosing
+        # auto_checkpoint context) is out of date
+        self._flow_version = getattr(self, "_flow_version", 0) + 1
         if defaults:
-            # The flow changed: a copy saved earlier is out of date
             defaults["saved_flow"] = False
         # ... and so is a checkpoint this instance was primed to resume from
         # (resume_from_file): its particles were weighted under the old flow
@@ -282,11 +284,11 @@ class Aspire:
                             del h5_file["checkpoint"]
                         self.save_flow(h5_file)
                         if defaults:
-                            defaults["saved_flow"] = True
+                            defaults["saved_flow"] = self._flow_version
                 else:
                     self.save_flow(h5_file)
                     if defaults:
-                        defaults["saved_flow"] = True
+                        defaults["saved_flow"] = self._flow_version
         return history
 
     def get_sampler_class(self, sampler_type: str) -> Callable:
@@ -500,7 +502,14 @@ class Aspire:
             checkpoint_path = defaults["path"]
             checkpoint_every = defaults["every"]
             checkpoint_save_config = defaults["save_config"]
-        saved_flow = defaults.get("saved_flow", False) if defaults else False
+        flow_version = getattr(self, "_flow_version", 0)
+        # saved_flow holds the version of the flow that was written (False if none)
+        saved_flow = (
+            defaults.get("saved_flow", False) is not False
+            and defaults["saved_flow"] == flow_version
+            if defaults
+            else False
+        )
         saved_config = (
             defaults.get("saved_config", False) if defaults else False
         )
@@ -541,7 +550,7 @@ class Aspire:
                     self.save_flow(h5_file)
                     saved_flow = True
                     if defaults is not None:
-                        defaults["saved_flow"] = True
+                        defaults["saved_flow"] = flow_version
 
         samples = self._sampler.sample(n_samples, **kwargs)
         self._last_sample_posterior_kwargs = {
@@ -573,7 +582,7 @@ class Aspire:
                 ):
                     self.save_flow(h5_file)
                     if defaults is not None:
-                        defaults["saved_flow"] = True
+                        defaults["saved_flow"] = flow_version
         if xp is not None:
             samples = samples.to_namespace(xp)
         samples.parameters = self.parameters
